@@ -398,13 +398,20 @@ class AsyncClient(base_client.BaseClient):
         namespace = namespace or '/'
         if not self.connected and namespace not in self.namespaces:
             return
+        reconnecting = not self.connected and \
+            self in base_client.reconnecting_clients
         try:
             await self._trigger_event('disconnect', namespace,
                                       self.reason.SERVER_DISCONNECT)
         finally:
             # a failing disconnect handler must not keep the namespace
             # listed as connected
-            await self._trigger_event('__disconnect_final', namespace)
+            if reconnecting:
+                # the reconnection effort in progress stops, and reports the
+                # end of the connection when it does
+                self._reconnect_abort.set()
+            else:
+                await self._trigger_event('__disconnect_final', namespace)
             if namespace in self.namespaces:
                 del self.namespaces[namespace]
             if not self.namespaces:
@@ -516,7 +523,9 @@ class AsyncClient(base_client.BaseClient):
                 await asyncio.wait_for(self._reconnect_abort.wait(), delay)
                 abort = True
             except asyncio.TimeoutError:
-                pass
+                # (a wait that is not positive times out also when the abort
+                # has already been requested)
+                abort = self._reconnect_abort.is_set()
             except asyncio.CancelledError:  # pragma: no cover
                 abort = True
             if abort:
